@@ -32,7 +32,8 @@ Oracle (S4, implementation only; nothing from the model) - only what C03's state
     serial, non-zero, < 2^32; the header fields are exactly the non-None arguments each once; zero padding < 8;
     rawMessage = rawHeader + rawPadding + rawBody
   * parse(build(x)) == x and parse(reference(x)) == x on type, serial, both flags, the nine attributes, signature and
-    (decoded) body
+    (decoded) body - in both tiers also for body signatures of exactly 253, 254 and 255 characters, own and foreign, both
+    byte orders (the SIGNATURE limit; 256 characters must not construct)
   * FRESH serial: over runs of constructions of all four classes (parse / forward in between, the counter never touched
     by the harness) no serial is given twice, all >= 1 and < 2^32.  HOW the counter advances is S3 only
   * a constructor given a name outside the DBus grammar or the reserved path (method call) must raise; so must one given
@@ -495,6 +496,53 @@ def large_cases(marshal):
     return out
 
 
+def long_signature_cases():
+    """Body signatures at the limit of the SIGNATURE type (at most 255 bytes): 253, 254 and 255 BYTE arguments, one STRUCT
+    of 253 INT32 (255 characters), an ARRAY nest; on every class.  (256 characters cannot be encoded: construct-malformed.)"""
+    out = []
+    sigs = [('y' * 253, list(range(253))), ('y' * 254, [i % 256 for i in range(254)]), ('y' * 255, [i % 256 for i in range(255)]),
+            ('(' + 'i' * 253 + ')', [[i - 100 for i in range(253)]]),
+            ('s' + 'a' * 31 + 'u' + 'b' * 222, ['x', [] if False else _nest(31), *([True, False] * 111)])]
+    for k, (sig, vals) in enumerate(sigs):
+        assert len(sig) in (253, 254, 255), len(sig)
+        cls = CLASSES[k % 4]
+        x = {'cls': cls, 'er': True, 'as': True, 'oob': None, 'next': 300 + k, 'max': DEFAULT_MAX}
+        for a in ATTRS:
+            x[a] = None
+        if cls in ('call', 'sig'):
+            x.update(path='/sig', member='m')
+        if cls == 'sig':
+            x['interface'] = 'a.b'
+        if cls in ('ret', 'err'):
+            x['reply_serial'] = 9
+        if cls == 'err':
+            x['error_name'] = 'a.E'
+        x.update(signature=sig, body_line=vc.to_line(list(vals)), abs=abs_list_to_json(sig, vals), _what='long-signature')
+        out.append(x)
+    return out
+
+
+def _nest(depth):
+    """A value of type a^depth u: nested one-element lists around an empty list."""
+    v = []
+    for _ in range(depth - 1):
+        v = [v]
+    return v
+
+
+def overlong_signature_cases():
+    """256 and 300 characters: `marshal_signature` cannot pack the length into one byte - no message."""
+    out = []
+    for n in (256, 300):
+        x = {'cls': 'call', 'er': True, 'as': True, 'oob': None, 'next': 5, 'max': DEFAULT_MAX}
+        for a in ATTRS:
+            x[a] = None
+        x.update(path='/sig', member='m', signature='y' * n, body_line=vc.to_line([1] * n), abs=[1] * n,
+                 _what='overlong-signature')
+        out.append(x)
+    return out
+
+
 def nontrivial(x):
     return any(x[a] is not None for a in ('interface', 'destination', 'sender', 'signature')) or not x['er'] or not x['as']
 
@@ -795,6 +843,8 @@ def in_domain(x):
         return False
     if x.get('arity_mismatch'):
         return False
+    if x['signature'] is not None and len(x['signature']) > 255:
+        return False
     if x['cls'] in ('ret', 'err') and x['reply_serial'] is None:
         return False
     return True
@@ -861,6 +911,11 @@ def judge_build(ctx, marshal, message, stream, x, mline):
                     % (CLSNAME[x['cls']], slot, value, VALIDATOR_OF[slot]))
         ctx.violation(key, what, inp=public(x), observed='constructed, rawMessage=' + obs['raw'][:200],
                       expected='an exception: the message cannot be constructed')
+        return obs, m, oob_after
+    if obs['ok'] and x['signature'] is not None and len(x['signature']) > 255:
+        ctx.violation('overlong-signature-constructible', 'a message with a body signature of %d characters is constructed '
+                      '(a SIGNATURE holds at most 255)' % len(x['signature']), inp=public(x), observed='constructed',
+                      expected='an exception')
         return obs, m, oob_after
     if obs['ok'] and x.get('arity_mismatch'):
         ctx.violation('wrong-arity-body-constructible',
@@ -1162,6 +1217,12 @@ def run_foreign(ctx, marshal, message, n):
         extra = g_foreign_extra(rng, basic_only)
         fields = foreign_fields(x, len(fds), rng, extra)
         cases.append((x, big, serial, fields, basic_only or all(len(s) == 1 and s != 'v' for _, s, _ in extra)))
+    for x0 in long_signature_cases():
+        for big in (False, True):
+            x = dict(x0, next=None, flag4=False)
+            fds = expected_fds(x)
+            fields = foreign_fields(x, len(fds), rng, g_foreign_extra(rng, True))
+            cases.append((x, big, 77, fields, True))
     run_foreign_cases(ctx, message, cases)
 
 
@@ -1364,7 +1425,7 @@ def body_of(raw, big):
 
 def run_malformed(ctx, marshal, message, n):
     rng = ctx.rng
-    cases = enum_bad_names(marshal)
+    cases = enum_bad_names(marshal) + overlong_signature_cases()
     for _ in range(n):
         x = g_malformed(rng, marshal)
         if x['_what'] == 'limit':
@@ -1551,7 +1612,7 @@ def run(ctx):
             ctx.stat('corpus')
         rng = ctx.rng
         n = ctx.scale(quick=3000, thorough=100000)
-        cases = large_cases(marshal) + [g_case(rng, marshal) for _ in range(n)]
+        cases = large_cases(marshal) + long_signature_cases() + [g_case(rng, marshal) for _ in range(n)]
         built = run_build_stream(ctx, marshal, message, 'build', cases)
         for x, obs, m, oob in built:
             ctx.stat('build:fields=%d' % sum(1 for a in ATTRS[:-1] if x[a] is not None))
